@@ -45,6 +45,71 @@ def parseHexStr (s : String) : Str :=
 
 def isTree (line : String) : Bool := line.startsWith "OK " || line.startsWith "ONE "
 
+/-- fields of an `EXN PE|"msg"|"src"|pos` outcome line -/
+def parsePE (line : String) : Option (Str × Str × Int) :=
+  if !line.startsWith "EXN PE|\"" then none else
+  let p : PyVal.P (Str × Str × Int) := do
+    let msg ← PyVal.pStrBody
+    PyVal.expect '|'; PyVal.expect '"'
+    let src ← PyVal.pStrBody
+    PyVal.expect '|'
+    let neg ← (do match ← PyVal.peek with | some '-' => PyVal.adv; pure true | _ => pure false)
+    let n ← PyVal.pNat
+    pure (msg, src, if neg then -(n : Int) else (n : Int))
+  match p.run { s := (line.drop 8).toString.toList.toArray } with
+  | .ok (r, _) => some r
+  | .error _ => none
+
+/-- the token text quoted in an "unexpected token %r" message (Python repr of a str or an int) -/
+def tokenOfMsg (msg : Str) : Option Str :=
+  let pre := "unexpected token ".toList
+  if !pre.isPrefixOf msg then none else
+  let r := msg.drop pre.length
+  match r with
+  | q :: rest =>
+    if q == '\'' || q == '"' then
+      -- undo repr escapes
+      let body := rest.dropLast
+      let rec unesc : Nat → Str → Str
+        | 0, _ => []
+        | _, [] => []
+        | f + 1, '\\' :: 'n' :: t => '\n' :: unesc f t
+        | f + 1, '\\' :: 't' :: t => '\t' :: unesc f t
+        | f + 1, '\\' :: c :: t => c :: unesc f t
+        | f + 1, c :: t => c :: unesc f t
+      some (unesc (body.length + 1) body)
+    else some r       -- an int (NUMBER token)
+  | [] => none
+
+/-- C11 on one error outcome for input `s` -/
+def errOK (s : Str) (line : String) : List Viol :=
+  match parsePE line with
+  | none => if line.startsWith "EXN PE|" then ["source-is-not-a-string"] else []
+  | some (msg, src, pos) =>
+    -- nested parsers run on token values, from which line continuations were removed
+    let sc := Spec.stripContinuations s
+    let isSub (t : Str) : Bool := t.length < s.length &&
+      ((List.range (s.length - t.length + 1)).any fun i => Str.slice s i (i + t.length) == t) ||
+      (t.length < sc.length && (List.range (sc.length - t.length + 1)).any fun i => Str.slice sc i (i + t.length) == t)
+    let srcCtx := if src == s then "" else
+      if src == s ++ ['\n'] then "+added-newline"
+      else if isSub src then "+substring"
+      else if src.getLast? == some '\n' && isSub src.dropLast then "+substring+added-newline"
+      else "+other"
+    (if src == s then [] else ["source-is-not-the-input" ++ srcCtx]) ++
+    (if 0 ≤ pos && pos ≤ (s.length : Int) then [] else ["position-out-of-range" ++ srcCtx]) ++
+    (if src != s then [] else
+      match tokenOfMsg msg with
+      | some tok =>
+        -- a NEWLINE token reported at end of input stands for the implicit final newline
+        if tok.isPrefixOf (s.drop pos.toNat) || (tok == ['\n'] && pos.toNat == s.length) ||
+           (tok.all isDigit && (s.drop pos.toNat).head?.map isDigit == some true) then []
+        else ["token-not-at-position"]
+      | none =>
+        if msg == "unexpected EOF".toList then
+          (if pos == (s.length : Int) then [] else ["eof-position-not-at-end"])
+        else [])
+
 /-- relational verdicts: `rel <prop>:<params> <src> <outcome>...` → list of signatures -/
 def relEval (prop : String) (params : List String) (src : Str) (outs : List String) : List Viol :=
   match prop, params, outs with
@@ -71,6 +136,7 @@ def relEval (prop : String) (params : List String) (src : Str) (outs : List Stri
       else ["relayout-mismatch"]
     | .ok _, .error _ => if isTree o2 then ["relayout-ill-typed"] else ["relayout-fails"]
     | .error e, _ => ["ill-typed:" ++ e]
+  | "C11", [], [o] => errOK src o
   | "C17single", [], [par, one] =>
     if par.startsWith "OK " then
       match outcomeNodes par with
